@@ -18,6 +18,7 @@ import (
 	"runtime"
 	"sort"
 	"strings"
+	"sync/atomic"
 	"time"
 
 	"github.com/rs/zerolog"
@@ -309,6 +310,54 @@ func Realtime() {
 		r.Fail(map[string]string{"engine": "health", "step": "Close"}, nil, "process burned %.2f CPU-s in 1.5 s after Server.Close() (spinning loop)", cpu.Seconds())
 	}
 	r.Eval(true)
+	r.Eval(true)
+	// Close() arriving while a check is in flight (the loop is not parked in its select): the loop must
+	// still notice the close once the check completes
+	faketoken.Reset()
+	base = loopGoroutines()
+	cfg2, err := writeConfig(dir, b, 1)
+	if err != nil {
+		panic(err)
+	}
+	release := make(chan struct{})
+	var blocking atomic.Bool
+	faketoken.For("t1").Set(func(s *faketoken.Script) {
+		s.PingFn = func(ctx context.Context) error {
+			if blocking.Load() {
+				select {
+				case <-release:
+				case <-ctx.Done():
+				}
+			}
+			return nil
+		}
+	})
+	srv2, err := server.New(cfg2)
+	if err != nil {
+		panic(err)
+	}
+	waitPings(1, 3*time.Second)
+	waitLoopParked(3 * time.Second)
+	blocking.Store(true)
+	n0 := faketoken.CountCalls("Ping")
+	if !waitPings(n0+1, 3*time.Second) { // the loop's next check is now blocked inside Ping
+		r.Fail(key, nil, "loop did not start its next check within 3 s (interval 1 s)")
+	}
+	srv2.Close()
+	time.Sleep(50 * time.Millisecond)
+	close(release)
+	deadline := time.Now().Add(2500 * time.Millisecond)
+	for loopGoroutines() > base && time.Now().Before(deadline) {
+		time.Sleep(5 * time.Millisecond)
+	}
+	if loopGoroutines() > base {
+		r.Fail(map[string]string{"engine": "health", "step": "CloseDuringCheck"}, nil, "Server.Close() during an in-flight token check: healthCheckLoop still running 2.5 s later (interval 1 s)")
+	}
+	pc := faketoken.CountCalls("Ping")
+	time.Sleep(1300 * time.Millisecond)
+	if faketoken.CountCalls("Ping") != pc {
+		r.Fail(map[string]string{"engine": "health", "step": "CloseDuringCheck"}, nil, "token checks continue after Server.Close() that arrived during a check")
+	}
 	r.Eval(true)
 	r.Extra["behaviours_read"] = 1
 	r.Emit()
